@@ -116,7 +116,10 @@ pub fn reference_fold(records: &[Event]) -> RefState {
                         }
                         JobTaskDescription::Graph { tasks, .. } => {
                             for t in tasks {
-                                let deps: Vec<u32> = t.task_deps.iter().map(|d| d.as_num()).collect();
+                                // (a dependency named twice is one dependency)
+                                let mut deps: Vec<u32> = t.task_deps.iter().map(|d| d.as_num()).collect();
+                                deps.sort_unstable();
+                                deps.dedup();
                                 let bad: Vec<u32> = deps
                                     .iter()
                                     .copied()
@@ -862,6 +865,16 @@ impl Checker<'_> {
         }
         // only records of completed jobs / disconnected workers are removed
         let kept: Vec<String> = pruned_records.iter().map(|e| payload_tag(&e.payload)).collect();
+        // the pruned file is a journal like any other: a restart from it must satisfy the restart
+        // clauses (C10, C11, ...) against what it records itself
+        if !pruned_records.is_empty() {
+            let n = pruned_records.len();
+            let before = self.found.len();
+            self.check_boundary(dir, &pruned_records, n, false);
+            for f in self.found[before..].iter_mut() {
+                f.site = format!("{} (journal pruned before)", f.site);
+            }
+        }
         // idempotent
         let pruned2 = dir.join("pruned2.journal");
         std::fs::copy(&pruned, &pruned2).unwrap();
@@ -964,6 +977,7 @@ impl Checker<'_> {
                     self.v("C12", "queues-differ", what.into(), format!("pruned {:?} original {:?}", rb.queues, ra.queues), case.clone());
                 }
                 if ra.uid != rb.uid {
+                    self.v("C11", "server-uid-changed", format!("after-{what}"), format!("restart from the pruned journal runs with server uid {}, the journal's uid is {}", rb.uid, ra.uid), case.clone());
                     self.v("C12", "server-uid-differs", what.into(), format!("pruned {} original {}", rb.uid, ra.uid), case.clone());
                 }
             }
